@@ -173,8 +173,10 @@ pub fn into_tokens(c: char, it: &mut Peekable<Chars>, state: &mut State) -> LexR
             let mut cur_offset = CaretPos::start();
             let mut cur_expr = String::new();
 
+            let mut closed = false;
             for c in it {
                 if !back_slash && build_cur_expr == 0 && c == '"' {
+                    closed = true;
                     break;
                 }
                 string.push(c);
@@ -204,6 +206,10 @@ pub fn into_tokens(c: char, it: &mut Peekable<Chars>, state: &mut State) -> LexR
                 }
 
                 back_slash = c == '\\';
+            }
+
+            if !closed {
+                return Err(LexErr::new(state.pos, None, "string literal is not closed"));
             }
 
             if string.starts_with("\"\"") && string.ends_with("\"\"") {
